@@ -40,7 +40,12 @@ CONSTANTS Family,        \* "exact" | "sgpr" | "kiss" | "svgp"
           LoadClears,    \* owners cleared by load_state_dict       (current code: {"ps","kern","vs"})
           SetDataClears, \* owners cleared by set_train_data        (current code: {"ps"})
           KernGuard,     \* BOOLEAN: kernel caches are used only when not training (current code: TRUE)
-          CholKeyedByJitter  \* BOOLEAN: cholesky_factor keyed by the jitter setting (current code: FALSE)
+          CholKeyedByJitter, \* BOOLEAN: cholesky_factor keyed by the jitter setting (current code: FALSE)
+          ShapeGuard,    \* BOOLEAN: a cached cholesky_factor whose batch shape differs from the current call's is recomputed
+                         \*          (current code: TRUE, `if L.shape != induc_induc_covar.shape`)
+          LoadClearsOnlyTouched, \* BOOLEAN: load_state_dict clears only the owners whose sub-tree receives a key (current code: FALSE -
+                         \*          torch calls _load_from_state_dict of EVERY module, with or without keys for it)
+          XB             \* batch shapes of the TEST inputs in the alphabet: subset of {"flat", "b3", "b1"}
 
 VARIABLES mode, pv, dv,
           ps,        \* <<>> or <<[tag, mean : SUBSET Policy, covar : BOOLEAN, hooked : BOOLEAN]>>
@@ -59,8 +64,10 @@ Exact  == Family \in {"exact", "sgpr", "kiss"}
 HasKern == Family \in {"sgpr", "kiss"}
 Var    == Family = "svgp"
 
-Tag(j) == [pv |-> pv, dv |-> dv, jit |-> j]
-KTag   == [pv |-> pv, dv |-> -1, jit |-> "d0"]      \* kernel attribute caches do not depend on the training data
+\* xb: the test-input batch shape the content was computed for ("-" = independent of it)
+Tag(j) == [pv |-> pv, dv |-> dv, jit |-> j, xb |-> "-"]
+KTag   == [pv |-> pv, dv |-> -1, jit |-> "d0", xb |-> "-"]      \* kernel attribute caches do not depend on the training data
+CholTag(s) == [Tag(s.jit) EXCEPT !.xb = s.xb]     \* K_ZZ is evaluated on the inducing points expanded to the batch shape of the test inputs
 Cur(j) == Tag(j)
 
 Init ==
@@ -104,7 +111,7 @@ Eval ==
 OptStep ==
   /\ Room /\ mode = "train" /\ pv < MaxV
   /\ pv' = pv + 1
-  /\ IF Var THEN /\ vs' = {<<"prior", Tag("d0")>>, <<"vardist", Tag("d0")>>, <<"chol", Tag("d0")>>}
+  /\ IF Var THEN /\ vs' = {<<"prior", Tag("d0")>>, <<"vardist", Tag("d0")>>, <<"chol", [Tag("d0") EXCEPT !.xb = "flat"]>>}
                  /\ initd' = TRUE /\ updated' = TRUE
             ELSE UNCHANGED <<vs, initd, updated>>
   /\ kern' = IF HasKern /\ ~KernGuard THEN <<KTag>> ELSE kern     \* an unguarded kernel cache would be filled in training
@@ -118,28 +125,33 @@ OptStep ==
 \* and it is kept for later calls whatever their settings.
 PredictExact(s) ==
   LET created == ps = <<>>
-      p0 == IF created THEN [tag |-> Tag("d0"), mean |-> {}, covar |-> FALSE, hooked |-> FALSE, lazy |-> s.lazy] ELSE ps[1]
+      p0 == IF created THEN [tag |-> Tag("d0"), mean |-> {}, covar |-> FALSE, hooked |-> FALSE, lazy |-> s.lazy, cxb |-> "-"] ELSE ps[1]
+      \* InterpolatedPredictionStrategy.covar_cache is computed from `_last_test_train_covar`: it takes the batch shape of
+      \* the test inputs of the call that fills it (the other strategies' covar caches are test independent)
+      cshape(x) == IF Family = "kiss" THEN x ELSE "-"
       kuse == HasKern /\ kern # <<>>
       k1 == IF HasKern THEN (IF kuse THEN kern ELSE <<KTag>>) ELSE kern
       usedMean  == "ignore" \in p0.mean
       usedCovar == s.fpv /\ p0.covar
-      p1 == [p0 EXCEPT !.mean = @ \cup {"ignore"}, !.covar = @ \/ s.fpv, !.hooked = @ \/ ~s.detach]
+      p1 == [p0 EXCEPT !.mean = @ \cup {"ignore"}, !.covar = @ \/ s.fpv, !.hooked = @ \/ ~s.detach,
+                       !.cxb = IF s.fpv /\ ~p0.covar THEN cshape(s.xb) ELSE @]
   IN /\ ps' = <<p1>>
      /\ kern' = k1
      \* everything inside an existing strategy was computed from the strategy's creation state
      /\ served' = (IF ~created THEN {[got |-> p0.tag, want |-> Tag("d0"), clsok |-> (HasKern => p0.lazy = s.lazy)]} ELSE {})
                   \cup (IF kuse THEN {[got |-> kern[1], want |-> Tag("d0"), clsok |-> TRUE]} ELSE {})
+                  \cup (IF usedCovar THEN {[got |-> [p0.tag EXCEPT !.xb = p0.cxb], want |-> [p0.tag EXCEPT !.xb = cshape(s.xb)], clsok |-> TRUE]} ELSE {})
      /\ UNCHANGED <<vs, initd, updated>>
 
 PredictVar(s) ==
   LET have(n) == \E e \in vs : e[1] = n
       get(n)  == (CHOOSE e \in vs : e[1] = n)[2]
-      cholHit == have("chol") /\ (CholKeyedByJitter => get("chol").jit = s.jit)
-      fill    == {<<"prior", Tag("d0")>>, <<"vardist", Tag("d0")>>, <<"chol", Tag(s.jit)>>}
+      cholHit == have("chol") /\ (CholKeyedByJitter => get("chol").jit = s.jit) /\ (ShapeGuard => get("chol").xb = s.xb)
+      fill    == {<<"prior", Tag("d0")>>, <<"vardist", Tag("d0")>>, <<"chol", CholTag(s)>>}
       keep    == {e \in vs : e[1] # "chol" \/ cholHit}
       names   == {e[1] : e \in keep}
   IN /\ vs' = keep \cup {e \in fill : e[1] \notin names}
-     /\ served' = {[got |-> e[2], want |-> IF e[1] = "chol" THEN Tag(s.jit) ELSE Tag("d0"), clsok |-> TRUE] : e \in keep}
+     /\ served' = {[got |-> e[2], want |-> IF e[1] = "chol" THEN CholTag(s) ELSE Tag("d0"), clsok |-> TRUE] : e \in keep}
      /\ initd' = TRUE /\ updated' = TRUE
      /\ UNCHANGED <<ps, kern>>
 
@@ -147,9 +159,10 @@ Predict(s) ==
   /\ Room /\ mode = "eval"
   /\ IF Var THEN PredictVar(s) ELSE PredictExact(s)
   /\ UNCHANGED <<mode, pv, dv>>
-  /\ Rec([a |-> "Predict", fpv |-> s.fpv, detach |-> s.detach, jit |-> s.jit, lazy |-> s.lazy, pv |-> pv, dv |-> dv,
+  /\ Rec([a |-> "Predict", fpv |-> s.fpv, detach |-> s.detach, jit |-> s.jit, lazy |-> s.lazy, xb |-> s.xb, pv |-> pv, dv |-> dv,
           stalejit |-> \E x \in served' : x.got.jit # x.want.jit,
-          stalecls |-> \E x \in served' : ~x.clsok])
+          stalecls |-> \E x \in served' : ~x.clsok,
+          stalexb |-> \E x \in served' : x.got.xb # x.want.xb])
 
 \* prior-mode call in eval mode: no prediction strategy; kernel attribute caches are used / filled
 PriorPredict ==
@@ -168,13 +181,19 @@ SetTrainData(which) ==
   /\ UNCHANGED <<mode, pv, initd, updated>> /\ served' = {}
   /\ Rec([a |-> "SetTrainData", which |-> which])
 
-LoadStateDict ==
-  /\ Room /\ pv < MaxV
+\* load_state_dict(d, strict=False) with a partial dictionary is a load too: "hyper" = kernel and mean entries only,
+\* "lik" = the likelihood's entries only (exact families: the likelihood is a sub-module).  Which owners have a key below them:
+LoadParts == {"full", "hyper", "lik"}
+Touched(part) == CASE part = "full"  -> {"ps", "kern", "vs"}
+                   [] part = "hyper" -> {"ps", "kern"}          \* the model itself (prefix "") and the kernel; not the variational strategy
+                   [] part = "lik"   -> {"ps"}
+LoadStateDict(part) ==
+  /\ Room /\ pv < MaxV /\ (part = "lik" => Exact)
   /\ pv' = pv + 1
-  /\ ClearOwners(LoadClears)
+  /\ ClearOwners(IF LoadClearsOnlyTouched THEN LoadClears \cap Touched(part) ELSE LoadClears)
   /\ initd' = TRUE /\ updated' = TRUE      \* the loaded state comes from an initialised model
   /\ UNCHANGED <<mode, dv>> /\ served' = {}
-  /\ Rec([a |-> "LoadStateDict"])
+  /\ Rec([a |-> "LoadStateDict", part |-> part])
 
 \* get_fantasy_model: needs a prediction strategy; by design leaves the source untouched (C04 checks that)
 GetFantasy ==
@@ -185,14 +204,15 @@ GetFantasy ==
 \* loss.backward() through a prediction made with detach_test_caches(False): the hooks empty the strategy's memo
 Backward ==
   /\ Room /\ Exact /\ mode = "eval" /\ ps # <<>> /\ ps[1].hooked
-  /\ ps' = <<[ps[1] EXCEPT !.mean = {}, !.covar = FALSE, !.hooked = FALSE]>>
+  /\ ps' = <<[ps[1] EXCEPT !.mean = {}, !.covar = FALSE, !.hooked = FALSE, !.cxb = "-"]>>
   /\ UNCHANGED <<mode, pv, dv, kern, vs, initd, updated>> /\ served' = {}
   /\ Rec([a |-> "Backward"])
 
-Settings == [fpv : BOOLEAN, detach : BOOLEAN, jit : IF Var THEN Jit ELSE {"d0"}, lazy : IF HasKern THEN BOOLEAN ELSE {TRUE}]
+Settings == [fpv : BOOLEAN, detach : BOOLEAN, jit : IF Var THEN Jit ELSE {"d0"}, lazy : IF HasKern THEN BOOLEAN ELSE {TRUE}, xb : XB]
 
 Next ==
-  \/ Train \/ Eval \/ OptStep \/ PriorPredict \/ LoadStateDict \/ GetFantasy \/ Backward
+  \/ Train \/ Eval \/ OptStep \/ PriorPredict \/ GetFantasy \/ Backward
+  \/ \E part \in LoadParts : LoadStateDict(part)
   \/ \E w \in {"both", "targets", "inputs"} : SetTrainData(w)
   \/ \E s \in Settings : (Var => s.fpv = FALSE /\ s.detach = TRUE) /\ Predict(s)
 
@@ -205,6 +225,9 @@ NoStaleServe == \A x \in served : x.got.pv = pv /\ (x.got.dv = dv \/ x.got.dv = 
 
 \* cached content must not depend on a setting whose value differs at the call
 NoStaleSettings == \A x \in served : x.got.jit = x.want.jit /\ x.clsok
+
+\* cached content computed for one batch shape of the test inputs is never served to a call with another
+NoStaleShape == \A x \in served : x.got.xb = x.want.xb
 
 \* in training mode no prediction strategy exists (so optimizer steps cannot make one stale)
 NoStrategyWhileTraining == mode = "train" => ps = <<>>
